@@ -42,6 +42,7 @@ import (
 
 	"github.com/NibiruChain/nibiru/v2/eth"
 	"github.com/NibiruChain/nibiru/v2/x/evm"
+	"github.com/NibiruChain/nibiru/v2/x/evm/embeds"
 	"github.com/NibiruChain/nibiru/v2/x/evm/evmtest"
 )
 
@@ -91,12 +92,17 @@ type c07TxObs struct {
 type c07World struct {
 	c      *Chain
 	target gethcommon.Address
+	z      gethcommon.Address
 	blocks int
 }
 
 var c07Runtime = mustHex("60003560085700005b60006000fd")
 var c07Init = append(mustHex("600e600c600039600e6000f3"), c07Runtime...)
 var c07InitRevert = mustHex("60006000fd")
+
+// Z: calls the FunToken precompile with its calldata (succeeds, survives), then calls itself; the inner frame
+// calls the precompile again and reverts; the failure is swallowed and the tx succeeds
+var c07ZInit = mustHex("610045600e6000396100456000f333301461002a573660006000376000600036600060006108005af150600060003660006000305af150005b3660006000376000600036600060006108005af15060006000fd")
 
 func mustHex(s string) []byte {
 	b, err := hex.DecodeString(s)
@@ -124,6 +130,14 @@ func newC07World(t *testing.T) *c07World {
 		t.Fatalf("deploy target: %s", r.Log)
 	}
 	w.target = crypto.CreateAddress(d.EthAddr, 0)
+	msg, err = c.SignEth(d, &evm.EvmTxArgs{Nonce: 1, GasLimit: 500_000, GasPrice: unibiWei, Input: c07ZInit})
+	if err != nil {
+		t.Fatal(err)
+	}
+	if r := c.DeliverEth(msg); r.Code != 0 {
+		t.Fatalf("deploy Z: %s", r.Log)
+	}
+	w.z = crypto.CreateAddress(d.EthAddr, 1)
 	c.EndBlock()
 	return w
 }
@@ -198,6 +212,16 @@ func (w *c07World) build(k c07Keys, m c07Msg) *evm.MsgEthereumTx {
 	case "create_oog":
 		data = c07Init
 		gas = 53_000 + 16*uint64(len(c07Init)) // >= intrinsic, not enough to run + deposit
+	case "pre_revert": // precompile call that survives, then one inside a frame that reverts and is swallowed
+		a := w.z
+		to = &a
+		in, err := embeds.SmartContract_FunToken.ABI.Pack("whoAmI", acc.NibiruAddr.String())
+		if err != nil {
+			panic(err)
+		}
+		data = in
+		value = big.NewInt(0)
+		gas = 1_000_000 + uint64(m.Salt)
 	case "drain": // sends 90% of the current balance away
 		a := gethcommon.HexToAddress("0x00000000000000000000000000000000000C07EE")
 		to = &a
@@ -538,7 +562,7 @@ func (w *c07World) runCase(t *testing.T, blocks [][]c07Tx) ([][][]c07Der, [][]c0
 
 // ---------------------------------------------------------------- generation
 
-var c07Acts = []string{"transfer", "call_ok", "call_revert", "create_ok", "create_revert", "create_oog", "lowgas", "drain", "create_val", "call_val"}
+var c07Acts = []string{"transfer", "call_ok", "call_revert", "create_ok", "create_revert", "create_oog", "lowgas", "drain", "create_val", "call_val", "pre_revert"}
 
 func genC07Case(r *Rng) [][]c07Tx {
 	exp := make([]uint64, nKeys)  // generator's own expectation of eth sequences (only steers generation)
@@ -606,7 +630,7 @@ func genC07Case(r *Rng) [][]c07Tx {
 				}
 				m := c07Msg{Dup: -1, S: s, N: tmp[s], Ty: r.Pick(5, 2, 3), Cid: "ok", Sig: "ok", Salt: salt}
 				salt++
-				m.Act = c07Acts[r.Pick(5, 3, 3, 3, 1, 1, 2, 1, 2, 1)]
+				m.Act = c07Acts[r.Pick(5, 3, 3, 3, 1, 1, 2, 1, 2, 1, 3)]
 				if j > 0 && r.Chance(1, 3) {
 					// a later message of a multi-message tx whose value the earlier ones may have spent
 					m.Act = []string{"create_val", "call_val", "drain"}[r.Pick(3, 1, 1)]
@@ -723,6 +747,8 @@ func TestC07(t *testing.T) {
 	// before it touches the nonce), for a creation, a call and a plain transfer; then everything resubmitted
 	run([][]c07Tx{{e(m(0, 0, "drain", 0), m(0, 1, "create_val", 0))}, {e(dup(1)), {Kind: "fund", Key: 0}, e(dup(1)), e(dup(0)), e(m(0, 2, "create_ok", 1))},
 		{e(m(1, 0, "create_val", 0), m(1, 1, "call_val", 0), m(1, 2, "drain", 0))}, {e(dup(6)), e(dup(7)), e(dup(8)), e(m(1, 3, "transfer", 2))}})
+	// … precompile calls around a reverted frame (StateDB flushes the sender with its temporarily reset nonce)
+	run([][]c07Tx{{e(m(0, 0, "pre_revert", 1))}, {e(dup(0)), e(m(0, 1, "pre_revert", 2), m(0, 2, "transfer", 3))}, {e(dup(0)), e(dup(2)), e(dup(3)), e(m(0, 3, "call_ok", 4))}})
 	rng := NewRng(cfg.Seed)
 	for i := 0; i < cfg.N; i++ {
 		run(genC07Case(rng.Fork()))
